@@ -73,7 +73,14 @@ def main(argv) -> int:
             if cell["cell_type"] != "code":
                 continue
             src = "".join(cell["source"])
-            src = "\n".join(l for l in src.splitlines() if not l.lstrip().startswith(("%", "!")))
+            lines = []
+            for l in src.splitlines():
+                t = l.lstrip()
+                if t.startswith(("%time ", "%timeit ")):     # line magics that only time a statement: keep the statement
+                    lines.append(l[: len(l) - len(t)] + t.split(" ", 1)[1])
+                elif not t.startswith(("%", "!")):
+                    lines.append(l)
+            src = "\n".join(lines)
             try:
                 with warnings.catch_warnings():
                     warnings.simplefilter("ignore")
